@@ -282,6 +282,8 @@ def w_realreuse(cfg, tier):
         l1, l2 = eng.integer('l1', 1, 2), eng.integer('l2', 1, 2)            # 1 = X, 2 = Z
         eng.assume_base((q1 < q2).t)
         eng.assume_base((l1 == l2).t)         # both errors in one sector (clusters of one sector interact)
+        if len(parts) > 3 and parts[3].startswith('h='):
+            eng.assume_base((h == int(parts[3][2:])).t)      # one history per configuration (parallelism)
         if tier == 'quick':
             eng.assume_base((l1 == 1).t)
 
@@ -440,7 +442,7 @@ def configs(tier):
            'bposd RotatedPlanar2DCode(2,2) update', 'bposd Toric2DCode(2,2)/XY noupdate', 'bposd Planar2DCode(2,2) update']
     out += ['xcubedec XCubeCode(2,2,2) 0,5,13']
     out += ['realreuse unionfind Toric2DCode(3,3)'] + \
-        (['realreuse unionfind Toric2DCode(3,4)', 'realreuse unionfind Toric2DCode(5,5)', 'realreuse matching RotatedPlanar2DCode(3,3)', 'realreuse bposd Toric2DCode(3,3)/XZZX/x'] if tier != 'quick' else [])
+        (['realreuse unionfind Toric2DCode(3,4)'] + [f'realreuse unionfind Toric2DCode(5,5) h={i}' for i in range(8)] + [ 'realreuse matching RotatedPlanar2DCode(3,3)', 'realreuse bposd Toric2DCode(3,3)/XZZX/x'] if tier != 'quick' else [])
     out += ['sweepdec Toric3DCode(2,2,2) sweep 0,5,13', 'sweepdec Planar3DCode(2,2,2) sweep 0,3,7',
             'sweepdec RotatedPlanar3DCode(2,2,2) sweep 0,2,5', 'sweepdec Toric3DCode(2,2,2) sweepmatch 0,5,13',
             'sweepdec RotatedPlanar3DCode(2,2,2) sweepmatch 0,2,5']
